@@ -13,6 +13,7 @@
 EXTENDS Naturals, Sequences, FiniteSets
 
 CONSTANTS DB,          \* databases of the instance
+          Closed,      \* databases whose write list does not name the remote writer
           MaxOps
 
 VARIABLES contents, status, events, sent, remote, nops
@@ -39,12 +40,16 @@ RemoteWrite(d) == /\ Step /\ remote' = [remote EXCEPT ![d] = @ + 1]
                   /\ UNCHANGED <<contents, status, events, sent>>
 
 \* the remote heads of d are delivered and replicated: one replicated event, no message sent
+\* (for a database closed to the remote writer the heads are refused, whatever the same writer was allowed to
+\* do in the other databases of the instance: nothing changes)
 Replicate(d) == /\ Step /\ remote[d] > 0
-                /\ contents' = [contents EXCEPT ![d] = @ + remote[d]]
-                /\ status' = [status EXCEPT ![d] = contents'[d]]
-                /\ events' = [events EXCEPT ![d] = @ + 1]
                 /\ remote' = [remote EXCEPT ![d] = 0]
-                /\ UNCHANGED sent
+                /\ IF d \in Closed
+                     THEN UNCHANGED <<contents, status, events, sent>>
+                     ELSE /\ contents' = [contents EXCEPT ![d] = @ + remote[d]]
+                          /\ status' = [status EXCEPT ![d] = contents'[d]]
+                          /\ events' = [events EXCEPT ![d] = @ + 1]
+                          /\ UNCHANGED sent
 
 \* close, reopen and load d from disk
 Reload(d) == /\ Step
